@@ -23,8 +23,8 @@ fn range(ty: Option<&str>, tag: &str, extra: &str) -> Val {
     })
 }
 
-pub const KINDS: [&str; 28] = [
-    "fk_arg_into_comp", "fk_arg_into_plural_form", "plural_unused_form_var", "plural_unused_form_comp", "fk_two_hops_plural", "fk_two_hops_range", "plural_plain", "plural_other_plain", "range_plain", "string", "var_x", "var_y_number", "var_x_date", "comp_b", "comp_i_var_x", "comp_b_var_y", "comp_b_comp_i_var_w", "comp_b_twice", "range_i32", "range_u8", "range_f32", "plural", "fk_rename_plural", "fk_rename_range", "fk_lit_count", "null", "number", "bool",
+pub const KINDS: [&str; 30] = [
+    "fk_lit_count_incl_end", "fk_lit_count_excl_end", "fk_arg_into_comp", "fk_arg_into_plural_form", "plural_unused_form_var", "plural_unused_form_comp", "fk_two_hops_plural", "fk_two_hops_range", "plural_plain", "plural_other_plain", "range_plain", "string", "var_x", "var_y_number", "var_x_date", "comp_b", "comp_i_var_x", "comp_b_var_y", "comp_b_comp_i_var_w", "comp_b_twice", "range_i32", "range_u8", "range_f32", "plural", "fk_rename_plural", "fk_rename_range", "fk_lit_count", "null", "number", "bool",
 ];
 
 /// entries for key `k` of kind `kind` (plural adds two entries)
@@ -67,6 +67,9 @@ pub fn kind_entries(kind: &str, tag: &str) -> Vec<(String, Val)> {
         "fk_two_hops_plural" => one(s(vec![text(&format!("[{tag}]")), fk("mid_pl")])),
         "fk_two_hops_range" => one(s(vec![text(&format!("[{tag}]")), fk("mid_rg")])),
         "fk_lit_count" => one(s(vec![fk_args("rg", vec![("count", FkArg::UInt(0))])])),
+        // a literal count that is the LAST value of a bounded branch: what is required is what that branch mentions
+        "fk_lit_count_incl_end" => one(s(vec![text(&format!("[{tag}]")), fk_args("rg2", vec![("count", FkArg::UInt(3))])])),
+        "fk_lit_count_excl_end" => one(s(vec![text(&format!("[{tag}]")), fk_args("rg2", vec![("count", FkArg::UInt(9))])])),
         // an argument replaces a variable wherever the target holds it: inside a component, inside a plural form
         "fk_arg_into_comp" => one(s(vec![text(&format!("[{tag}]")), fk_args("badge", vec![("name", FkArg::Str(vec![var("player")]))])])),
         "fk_arg_into_plural_form" => one(s(vec![text(&format!("[{tag}]")), fk_args("pl", vec![("m", FkArg::Str(vec![text("«"), var("mm"), text("»")]))])])),
@@ -83,6 +86,17 @@ pub fn helper_entries(loc: &str) -> Vec<(String, Val)> {
         ("pl_other".into(), s(vec![text(&format!("[{loc}.pl.other]")), var("count"), var("m")])),
         ("rg".into(), range(Some("u16"), &format!("{loc}.rg"), "q")),
         ("badge".into(), s(vec![comp("b", vec![var("name"), comp("i", vec![var("name")])]), text(&format!(" [{loc}.badge] ")), var("points")])),
+        (
+            "rg2".into(),
+            Val::Range(RangeDecl {
+                ty: Some("u8".into()),
+                branches: vec![
+                    rb(s(vec![text(&format!("[{loc}.rg2.1-3]")), var("ra")]), vec![CountSpec::Str("1..=3".into())]),
+                    rb(s(vec![text(&format!("[{loc}.rg2.4-9]")), var("rb"), comp("u", vec![text("x")])]), vec![CountSpec::Str("4..10".into())]),
+                    rb(s(vec![text(&format!("[{loc}.rg2.fb]")), var("rc")]), vec![]),
+                ],
+            }),
+        ),
         ("mid_pl".into(), s(vec![fk_args("pl", vec![("count", FkArg::Str(vec![var("n")]))])])),
         ("mid_rg".into(), s(vec![fk_args("rg", vec![("count", FkArg::Str(vec![var("n")]))])])),
     ]
